@@ -43,7 +43,7 @@ type ipHolder interface {
 type simpleIP net.IP
 
 func (s simpleIP) Contains(ip net.IP) bool {
-	return net.IP(s).Equal(ip)
+	return len(ip) != 0 && net.IP(s).Equal(ip)
 }
 
 type trustedProxySet []ipHolder
@@ -69,8 +69,12 @@ func New(logger zerolog.Logger, proxies ...string) func(http.Handler) http.Handl
 			} else {
 				ipHolders = append(ipHolders, ipNet)
 			}
+		} else if ip := net.ParseIP(ipAddr); ip == nil {
+			// must not become part of the set. Otherwise, peers, whose addresses cannot be parsed as well
+			// (like link-local IPv6 addresses having a zone), would be considered trusted
+			logger.Warn().Msgf("Trusted proxies IP %q could not be parsed", ipAddr)
 		} else {
-			ipHolders = append(ipHolders, simpleIP(net.ParseIP(ipAddr)))
+			ipHolders = append(ipHolders, simpleIP(ip))
 		}
 	}
 
